@@ -282,7 +282,7 @@ func checkStructureSmall(c invCase, rec *Rec) error {
 	names := append([]string{}, repNames...)
 	sort.Strings(names)
 	for _, name := range names {
-		if err := checkStructureOn(name, g, reps(g)[name], c.Bounds, true, false); err != nil {
+		if err := checkStructureOn(name, g, repOf(g, name), c.Bounds, true, false); err != nil {
 			return err
 		}
 	}
@@ -300,7 +300,7 @@ func checkStructureLarge(c invCase, rec *Rec) error {
 	rec.Labelf("n-%d", bucket(g.N))
 	rec.Labelf("girth-%d", oracle.Girth(g))
 	for _, name := range []string{"dense", "sparse", "cocomp"} {
-		if err := checkStructureOn(name, g, reps(g)[name], nil, false, true); err != nil {
+		if err := checkStructureOn(name, g, repOf(g, name), nil, false, true); err != nil {
 			return err
 		}
 	}
